@@ -229,6 +229,21 @@ func (s *Server) ListenUnix(path string) (net.Listener, error) {
 	if err != nil {
 		return nil, err
 	}
+	s.acceptLoop(l)
+	return l, nil
+}
+
+// ListenTCP serves on a loopback TCP port chosen by the system (l.Addr() tells which).
+func (s *Server) ListenTCP() (net.Listener, error) {
+	l, err := net.Listen("tcp", "127.0.0.1:0")
+	if err != nil {
+		return nil, err
+	}
+	s.acceptLoop(l)
+	return l, nil
+}
+
+func (s *Server) acceptLoop(l net.Listener) {
 	go func() {
 		for {
 			c, err := l.Accept()
@@ -248,7 +263,6 @@ func (s *Server) ListenUnix(path string) (net.Listener, error) {
 			go s.serve(c, id)
 		}
 	}()
-	return l, nil
 }
 
 // CloseAll cuts every open connection.
